@@ -23,6 +23,10 @@ pub fn run(name: &str, seed: u64, rest: &[String]) -> String {
         "mod_model" => mod_model(seed),
         "patch_verify" => patch_verify(seed),
         "bsd0_total" => bsd0_total(seed),
+        "dbc_header" => dbc_header(seed),
+        "dbc_strings" => dbc_strings(seed),
+        "dbc_keys" => dbc_keys(seed),
+        "dbc_writer" => dbc_writer(seed),
         "mod_full" => mod_full(),
         "build_lookup" => build_lookup(seed),
         _ => { let _ = rest; format!("{{\"oracle\":{},\"error\":\"unknown oracle\"}}", js(name)) }
@@ -447,4 +451,129 @@ fn bsd0_total(seed: u64) -> String {
         }
     }
     none("bsd0_total", tried)
+}
+
+fn dbc_header(seed: u64) -> String {
+    use wow_cdbc::{DbcHeader, FieldType, Schema, SchemaField};
+    let mut rng = Rng(seed ^ 0xDBC1);
+    let mut tried = 0;
+    let vals: [u32; 9] = [0, 1, 2, 0xFFFF, 0x10000, 0x10001, 0x7FFFFFFF, 0x80000000, 0xFFFFFFFF];
+    for &rc in &vals { for &rs in &vals { for &sb in &[0u32, 1, 0xFFFFFFFF] {
+        tried += 1;
+        let h = DbcHeader { magic: *b"WDBC", record_count: rc, field_count: 1, record_size: rs, string_block_size: sb };
+        let want = 20u64 + rc as u64 * rs as u64 + sb as u64;
+        match catch(move || h.total_size()) {
+            Err(p) => return fail("dbc_header", format!("DbcHeader{{record_count:{:#x}, record_size:{:#x}, string_block_size:{:#x}}}.total_size()", rc, rs, sb), format!("panic: {}", p), format!("{}", want)),
+            Ok(v) if v != want => return fail("dbc_header", format!("DbcHeader{{record_count:{:#x}, record_size:{:#x}, string_block_size:{:#x}}}.total_size()", rc, rs, sb), format!("{}", v), format!("{}", want)),
+            _ => {}
+        }
+    }}}
+    let types = [FieldType::Int32, FieldType::UInt32, FieldType::Float32, FieldType::String, FieldType::Bool, FieldType::UInt8, FieldType::Int8, FieldType::UInt16, FieldType::Int16];
+    for _ in 0..300 {
+        tried += 1;
+        let n = (rng.next() % 6) as usize;
+        let mut sc = Schema::new("t");
+        let mut want = 0usize; let mut desc = Vec::new();
+        for i in 0..n {
+            let t = types[(rng.next() % 9) as usize];
+            let w = match t { FieldType::UInt8 | FieldType::Int8 => 1, FieldType::UInt16 | FieldType::Int16 => 2, _ => 4 };
+            if rng.next() % 4 == 0 { let a = (rng.next() % 4) as usize; sc.add_field(SchemaField::new_array(format!("f{}", i), t, a)); want += w * a; desc.push(format!("{:?}[{}]", t, a)); }
+            else { sc.add_field(SchemaField::new(format!("f{}", i), t)); want += w; desc.push(format!("{:?}", t)); }
+        }
+        let got = sc.record_size();
+        if got != want { return fail("dbc_header", format!("Schema{:?}.record_size()", desc), format!("{}", got), format!("{} (packed sum of field widths)", want)); }
+    }
+    none("dbc_header", tried)
+}
+
+fn dbc_strings(seed: u64) -> String {
+    use wow_cdbc::{StringBlock, CachedStringBlock, StringRef};
+    let mut rng = Rng(seed ^ 0x57B1);
+    let mut tried = 0;
+    for _ in 0..400 {
+        let n = (rng.next() % 12) as usize;
+        let data: Vec<u8> = (0..n).map(|_| if rng.next() % 3 == 0 { 0 } else { b'a' + (rng.next() % 26) as u8 }).collect();
+        let sb = match StringBlock::parse(&mut std::io::Cursor::new(data.clone()), 0, n as u32) { Ok(s) => s, Err(_) => continue };
+        let cached = CachedStringBlock::from_string_block(&sb);
+        for off in 0..(n as u32 + 2) {
+            tried += 1;
+            let want: Option<Vec<u8>> = if (off as usize) < n { let o = off as usize; let e = data[o..].iter().position(|&b| b == 0).map(|p| o + p).unwrap_or(n); Some(data[o..e].to_vec()) } else { None };
+            let got = sb.get_string(StringRef::new(off)).ok().map(|s| s.as_bytes().to_vec());
+            if got != want { return fail("dbc_strings", format!("block {:02x?}, get_string(offset {})", data, off), format!("{:?}", got), format!("{:?}", want)); }
+            let got2 = cached.get_string(StringRef::new(off)).ok().map(|s| s.as_bytes().to_vec());
+            if got2 != want { return fail("dbc_strings", format!("block {:02x?}, cached get_string(offset {})", data, off), format!("{:?}", got2), format!("{:?} (uncached)", want)); }
+            let st = sb.is_string_start(off);
+            let wst = (off as usize) < n && (off == 0 || data[off as usize - 1] == 0);
+            if st != wst { return fail("dbc_strings", format!("block {:02x?}, is_string_start({})", data, off), format!("{}", st), format!("{}", wst)); }
+        }
+    }
+    none("dbc_strings", tried)
+}
+
+fn dbc_keys(seed: u64) -> String {
+    use wow_cdbc::{DbcParser, FieldType, Schema, SchemaField, Value};
+    let mut rng = Rng(seed ^ 0x4E75);
+    let mut tried = 0;
+    for _ in 0..200 {
+        let n = (rng.next() % 6) as usize;
+        let mut keys: Vec<u32> = Vec::new();
+        while keys.len() < n { let k = (rng.next() % 50) as u32; if !keys.contains(&k) { keys.push(k); } }
+        let mut bytes = b"WDBC".to_vec();
+        bytes.extend_from_slice(&(n as u32).to_le_bytes()); bytes.extend_from_slice(&2u32.to_le_bytes()); bytes.extend_from_slice(&8u32.to_le_bytes()); bytes.extend_from_slice(&1u32.to_le_bytes());
+        for (i, k) in keys.iter().enumerate() { bytes.extend_from_slice(&k.to_le_bytes()); bytes.extend_from_slice(&(1000 + i as u32).to_le_bytes()); }
+        bytes.push(0);
+        let mut sc = Schema::new("t"); sc.add_field(SchemaField::new("id", FieldType::UInt32)); sc.add_field(SchemaField::new("v", FieldType::UInt32)); sc.set_key_field("id");
+        let parser = match DbcParser::parse_bytes(&bytes).and_then(|p| p.with_schema(sc)) { Ok(p) => p, Err(e) => return fail("dbc_keys", format!("keys {:?}", keys), format!("parse Err({})", e), "Ok".into()) };
+        let mut rs = match parser.parse_records() { Ok(r) => r, Err(e) => return fail("dbc_keys", format!("keys {:?}", keys), format!("parse_records Err({})", e), "Ok".into()) };
+        for phase in 0..2 {
+            if phase == 1 { if rs.create_sorted_key_map().is_err() { break; } }
+            for (i, k) in keys.iter().enumerate() {
+                tried += 1;
+                let h = rs.get_record_by_key(*k).and_then(|r| match r.get_value(1) { Some(Value::UInt32(v)) => Some(*v), _ => None });
+                if h != Some(1000 + i as u32) { return fail("dbc_keys", format!("records with keys {:?} (file order), {} get_record_by_key({})", keys, if phase == 1 { "after create_sorted_key_map," } else { "" }, k), format!("{:?}", h), format!("record {} (value {})", i, 1000 + i)); }
+                if phase == 1 {
+                    let b = rs.get_record_by_key_binary_search(*k).and_then(|r| match r.get_value(1) { Some(Value::UInt32(v)) => Some(*v), _ => None });
+                    if b != Some(1000 + i as u32) { return fail("dbc_keys", format!("records with keys {:?}, binary search for {}", keys, k), format!("{:?}", b), format!("record {}", i)); }
+                }
+            }
+        }
+    }
+    none("dbc_keys", tried)
+}
+
+/// parse -> write -> parse with repeated / empty strings: every record resolves to the same text; identical strings stored once
+fn dbc_writer(seed: u64) -> String {
+    use wow_cdbc::{DbcParser, DbcWriter, FieldType, Schema, SchemaField, Value};
+    let mut rng = Rng(seed ^ 0x3717);
+    let mut tried = 0;
+    let pool = ["", "wolf", "bear", "boar", "w", "wolfhound"];
+    for _ in 0..200 {
+        let n = 1 + (rng.next() % 5) as usize;
+        let picks: Vec<usize> = (0..n).map(|_| (rng.next() % pool.len() as u64) as usize).collect();
+        // source file: string block with every pool string once
+        let mut block = vec![0u8]; let mut offs = vec![0u32; pool.len()];
+        for (i, s) in pool.iter().enumerate() { if i == 0 { continue; } offs[i] = block.len() as u32; block.extend_from_slice(s.as_bytes()); block.push(0); }
+        let mut bytes = b"WDBC".to_vec();
+        bytes.extend_from_slice(&(n as u32).to_le_bytes()); bytes.extend_from_slice(&2u32.to_le_bytes()); bytes.extend_from_slice(&8u32.to_le_bytes()); bytes.extend_from_slice(&(block.len() as u32).to_le_bytes());
+        for (i, p) in picks.iter().enumerate() { bytes.extend_from_slice(&(i as u32 + 1).to_le_bytes()); bytes.extend_from_slice(&offs[*p].to_le_bytes()); }
+        bytes.extend_from_slice(&block);
+        let mk = || { let mut sc = Schema::new("t"); sc.add_field(SchemaField::new("id", FieldType::UInt32)); sc.add_field(SchemaField::new("name", FieldType::String)); sc };
+        let rs = match DbcParser::parse_bytes(&bytes).and_then(|p| p.with_schema(mk())).and_then(|p| p.parse_records()) { Ok(r) => r, Err(_) => continue };
+        let mut out = std::io::Cursor::new(Vec::new());
+        let wr = { let mut w = DbcWriter::new(&mut out).with_schema(mk()); w.write_records(&rs) };
+        if let Err(e) = wr { return fail("dbc_writer", format!("strings {:?}", picks.iter().map(|p| pool[*p]).collect::<Vec<_>>()), format!("write Err({})", e), "Ok".into()); }
+        let written = out.into_inner();
+        tried += 1;
+        let rs2 = match DbcParser::parse_bytes(&written).and_then(|p| p.with_schema(mk())).and_then(|p| p.parse_records()) { Ok(r) => r, Err(e) => return fail("dbc_writer", format!("strings {:?}", picks.iter().map(|p| pool[*p]).collect::<Vec<_>>()), format!("re-parse Err({})", e), "Ok".into()) };
+        for (i, p) in picks.iter().enumerate() {
+            let got = rs2.get_record(i).and_then(|r| match r.get_value(1) { Some(Value::StringRef(sr)) => rs2.get_string(*sr).ok().map(|s| s.to_string()), _ => None });
+            if got.as_deref() != Some(pool[*p]) { return fail("dbc_writer", format!("table with strings {:?}: record {} after write -> parse", picks.iter().map(|p| pool[*p]).collect::<Vec<_>>(), i), format!("{:?}", got), format!("{:?}", pool[*p])); }
+        }
+        // stored once: block size = 1 + sum over distinct non-empty strings (len + 1)
+        let mut distinct: Vec<&str> = picks.iter().map(|p| pool[*p]).filter(|s| !s.is_empty()).collect(); distinct.sort(); distinct.dedup();
+        let want_block = 1 + distinct.iter().map(|s| s.len() + 1).sum::<usize>();
+        let got_block = u32::from_le_bytes([written[16], written[17], written[18], written[19]]) as usize;
+        if got_block != want_block { return fail("dbc_writer", format!("strings {:?}", picks.iter().map(|p| pool[*p]).collect::<Vec<_>>()), format!("string block {} bytes", got_block), format!("{} bytes (each distinct string once)", want_block)); }
+    }
+    none("dbc_writer", tried)
 }
